@@ -181,6 +181,156 @@ class RetryDomain(Domain):
         return state
 
 
+class RetryRowsDomain(ExactCollections, Domain):
+    """_retry interpreted end to end for a concrete number of attempts against a script of outcomes, one per call of
+    the delegate: 'ok', 'async' (a BaseException) or ('exc', matches retry_for, matches do_not_retry_for).  Ranges are
+    exact, so any loop structure (one loop, a peeled last attempt, a while loop over a counter) is followed as it is.
+    Observed: the sequence of delegate calls and sleeps, and what comes out."""
+
+    async_enabled = False
+    subscript_may_raise = False
+    unpack_may_raise = False
+    max_inline_depth = 3
+    global_keys = ("#ev", "#imprecise")
+    ORIGIN = 100000
+
+    def __init__(self, prog, fn, attempts, cfg, script):
+        super().__init__(prog, fn)
+        self.attempts, self.cfg, self.script = attempts, cfg, script
+
+    def mark_imprecise(self, state, node):
+        return state.set("#imprecise", 1)
+
+    def name_load(self, name, state, node=None):
+        if name == "self" and not state.has("self"):
+            return Opaque("self")
+        return state.get(name, TOP)
+
+    def never_none(self, v):
+        return isinstance(v, Atom) or super().never_none(v)
+
+    def attr_load(self, objval, node, state):
+        b = self.coll_attr(objval, node)
+        if b is not None:
+            return b
+        if is_self_attr(node) or objval == Opaque("self"):
+            a = node.attr
+            if a == "_attempts":
+                return Const(self.attempts)
+            if a in ("_retry_for", "_do_not_retry_for", "_client_dir", "_retry_delay"):
+                return Atom(a[1:])
+        return TOP
+
+    def truth(self, v, state=None):
+        if isinstance(v, Atom):
+            return {"retry_for": self.cfg["rf"], "do_not_retry_for": self.cfg["dnr"]}.get(v.name)
+        return super().truth(v, state)
+
+    def compare(self, node, op, l, r, state):
+        if isinstance(op, (ast.In, ast.NotIn)) and r == Atom("client_dir"):
+            k = self.cfg["known"]
+            return Const(k if isinstance(op, ast.In) else not k)
+        return super().compare(node, op, l, r, state)
+
+    def _ev(self, state, *e):
+        return state.set("#ev", state.get("#ev", ()) + (tuple(e),))
+
+    def call(self, node, fval, args, kwargs, state):
+        name = call_name(node)
+        if name == "func":
+            n = sum(1 for e in state.get("#ev", ()) if e[0] == "call") + 1
+            st = self._ev(state, "call", n)
+            out = self.script[n - 1] if n <= len(self.script) else "ok"
+            if out == "ok":
+                return [("ok", Opaque("result:%d" % n), st)]
+            return [("exc", Exc(ASYNC if out == "async" else ORD, None, self.ORIGIN + n), st)]
+        if name == "isinstance" and len(args) == 2 and isinstance(args[1], Atom) and hasattr(args[0], "origin") and isinstance(args[0].origin, int) and args[0].origin > self.ORIGIN:
+            out = self.script[args[0].origin - self.ORIGIN - 1]
+            if isinstance(out, tuple):
+                return [("ok", Const(out[1] if args[1].name == "retry_for" else out[2]), state)]
+            return [("ok", TOP, self.mark_imprecise(state, node))]
+        if name in ("sleep", "time.sleep"):
+            return [("ok", NONE, self._ev(state, "sleep", args[0] if args and isinstance(args[0], Atom) else "?"))]
+        r = self.coll_call(node, fval, args, kwargs, state)
+        if r is not None:
+            return r
+        if isinstance(node.func, ast.Name) and self.fn is not None and node.func.id in self.fn.module.functions:
+            res = self.inline(node, self.fn.module.functions[node.func.id], args, kwargs, state)
+            if res is not None:
+                return res
+        if name.startswith("self.") and name.count(".") == 1 and self.prog is not None:
+            m = self.prog.method("RetryingClient", name[5:], required=False)
+            if m is not None:
+                res = self.inline(node, m, args, kwargs, state)
+                if res is not None:
+                    return res
+        return [("ok", TOP, state)]
+
+
+def retry_rows(prog, rt, rule, tier):
+    """C17.R6: for attempts = 1..3 (4 in the thorough tier) and every configuration of the two filters and the name
+    test, every script of delegate outcomes that the specification distinguishes is run through _retry; calls, sleeps
+    and the outcome must be those of the specification."""
+    n_rows, bad = 0, []
+    for A in range(1, (4 if tier == "thorough" else 3) + 1):
+        for rf, dnr, known in itertools.product((False, True), repeat=3):
+            cfg = dict(rf=rf, dnr=dnr, known=known)
+            excs = [("exc", m1, m2) for m1 in ((False, True) if rf else (False,)) for m2 in ((False, True) if dnr else (False,))]
+            immediate = lambda o: (rf and not o[1]) or (dnr and o[2]) or not known
+            cont = [o for o in excs if not immediate(o)]
+            finals = ["ok", "async"] + excs
+            scripts = []
+            for k in range(1, A + 1):
+                for pre in itertools.product(cont, repeat=k - 1):
+                    for last in finals:
+                        if k < A and isinstance(last, tuple) and not immediate(last):
+                            continue  # (the specification goes on: covered by a longer prefix)
+                        scripts.append(tuple(pre) + (last,))
+            for script in scripts:
+                n_rows += 1
+                # ---- the specification
+                want_ev, want = [], None
+                for i, o in enumerate(script, 1):
+                    want_ev.append(("call", i))
+                    if o == "ok":
+                        want = ("ret", i)
+                        break
+                    if o == "async" or i == A or immediate(o):
+                        want = ("exc", i)
+                        break
+                    want_ev.append(("sleep", Atom("retry_delay")))
+                dom = RetryRowsDomain(prog, rt, A, cfg, script)
+                env = {"#ev": ()}
+                for p in rt.params:
+                    if p.name == "self":
+                        continue
+                    env[p.name] = TupleV(()) if p.kind == "vararg" else (TOP if p.kind == "kwarg" else Opaque("arg:" + p.name))
+                outs = Interp(dom, rt.node, prog).run(Env(env))
+                exits = [("ret", s, v) for s, v, t in outs.of("ret")] + [("exc", s, v) for s, v, t in outs.of("exc")]
+                what = "attempts=%d, %s, delegate outcomes %s" % (A, _fmt(dict(cfg)), [o if isinstance(o, str) else "raises(%sretry_for, %sdo_not_retry_for)" % ("in " if o[1] else "not in ", "in " if o[2] else "not in ") for o in script])
+                if len(exits) != 1 or exits[0][1].get("#imprecise", 0):
+                    rule.undecided("RetryingClient._retry:rows", "%s: %d exits, not one exactly known outcome" % (what, len(exits)))
+                    return n_rows
+                kind, s_, v = exits[0]
+                got_ev = list(s_.get("#ev", ()))
+                if kind == "ret":
+                    got = ("ret", int(v.tag.split(":")[1])) if isinstance(v, Opaque) and v.tag.startswith("result:") else ("ret", str(v))
+                else:
+                    got = ("exc", v.origin - RetryRowsDomain.ORIGIN) if isinstance(v.origin, int) and v.origin > RetryRowsDomain.ORIGIN else ("exc", str(v))
+                if got_ev != want_ev or got != want:
+                    bad.append((what, got_ev, got, want_ev, want))
+    show = lambda ev: " ".join("call#%d" % e[1] if e[0] == "call" else "sleep(%s)" % (e[1].name if isinstance(e[1], Atom) else e[1]) for e in ev)
+    res = lambda r: ("returns the result of call #%s" % r[1]) if r[0] == "ret" else ("raises what call #%s raised" % r[1])
+    if bad:
+        what, got_ev, got, want_ev, want = bad[0]
+        rule.fail("RetryingClient._retry:rows", "%d of %d end-to-end rows deviate; e.g. %s: _retry does [%s] and %s; specified: [%s] and %s" % (len(bad), n_rows, what, show(got_ev), res(got), show(want_ev), res(want)), fn=rt, node=rt.node)
+    else:
+        rule.ok("all %d end-to-end rows (attempts 1..%d x filters x outcome scripts) make the specified calls and sleeps and hand out the specified result or exception" % (n_rows, 4 if tier == "thorough" else 3))
+    rule.count("end-to-end retry rows", n_rows)
+    rule.floor("end-to-end retry rows", n_rows, 100)
+    return n_rows
+
+
 def spec_raises(cfg):
     return cfg["last"] or (cfg["rf"] and not cfg["mrf"]) or (cfg["dnr"] and cfg["mdnr"]) or (not cfg["known"])
 
@@ -236,25 +386,48 @@ def run(chk):
     rc = prog.cls("RetryingClient")
     rt = prog.method(rc, "_retry")
     # ------------------------------------------------------------------ R1 loop bound
-    r1 = chk.rule("C17.R1", "the only loop of _retry iterates range(self._attempts) and calls the delegate once per iteration")
+    r1 = chk.rule("C17.R1", "the delegate is invoked at most `attempts` times: its call sites sit in counted loops over range(self._attempts + c) or outside any loop, and the bounds add up to self._attempts")
     loops = [n for n in walk_no_nested(rt.node) if isinstance(n, (ast.For, ast.While))]
-    ok = len(loops) == 1 and isinstance(loops[0], ast.For) and isinstance(loops[0].iter, ast.Call) and call_name(loops[0].iter) == "range" and len(loops[0].iter.args) == 1 and is_self_attr(loops[0].iter.args[0], "_attempts")
-    r1.expect(ok, "loop is `for attempt in range(self._attempts)`", "RetryingClient._retry:loop-bound", "the retry loop is `%s`, not exactly range(self._attempts): more or fewer than `attempts` invocations become possible" % (node_src(loops[0].iter) if loops and isinstance(loops[0], ast.For) else [type(l).__name__ for l in loops]), fn=rt, node=loops[0] if loops else rt.node)
+    fcalls = [c for c in walk_no_nested(rt.node) if isinstance(c, ast.Call) and isinstance(c.func, ast.Name) and c.func.id == "func"]
+    # invocation bound, for every attempts >= 1: each call site is executed at most once per iteration of the (single,
+    # un-nested) counted loop around it, or at most once if it is outside every loop
+    total, why = [0, 0], None  # coefficient of attempts, constant
+    for c in fcalls:
+        around = [l for l in loops if any(y is c for y in ast.walk(l))]
+        if not around:
+            total[1] += 1
+            continue
+        b = _range_bound(around[0]) if len(around) == 1 else None
+        if b is None:
+            why = "the delegate is called inside `%s`, which is not a single counted loop over range(self._attempts + c)" % node_src(around[0]).split("\n")[0]
+            break
+        total[0] += b[0]
+        total[1] += b[1]
+    if why is not None:
+        # a loop this rule cannot count (a while loop over a counter, a nested loop): the bound for *all* attempts is not
+        # decided here (R6 still decides attempts 1..3)
+        r1.undecided("RetryingClient._retry:loop-bound", why)
+    ok = why is None and fcalls and tuple(total) == (1, 0)
+    canonical = len(loops) == 1 and isinstance(loops[0], ast.For) and isinstance(loops[0].iter, ast.Call) and call_name(loops[0].iter) == "range" and len(loops[0].iter.args) == 1 and is_self_attr(loops[0].iter.args[0], "_attempts") and len(fcalls) == 1 and any(y is fcalls[0] for y in ast.walk(loops[0]))
+    r1.expect(ok or why is not None, "invocations of the delegate are bounded by %d*attempts%+d" % tuple(total), "RetryingClient._retry:loop-bound", "the call sites of the delegate allow %d*attempts%+d invocations, not exactly `attempts`: more or fewer than `attempts` invocations become possible" % tuple(total), fn=rt, node=loops[0] if loops else rt.node)
+    r6 = chk.rule("C17.R6", "end to end for attempts = 1..3: for every filter configuration and every script of delegate outcomes, _retry makes the specified calls and sleeps and hands out the specified result or exception (any loop structure)")
+    retry_rows(prog, rt, r6, chk.tier)
     if not ok:
         return
+    if not canonical:
+        # R2-R4 are the all-`attempts` argument for the canonical shape (one loop over range(self._attempts) around the
+        # one call site); another loop structure is decided by R1 (bound, all attempts) and R6 (behaviour, attempts <= 3)
+        for rid, text in (("C17.R2", "64-row decision table of the handler"), ("C17.R3", "sleep placement"), ("C17.R4", "transparency")):
+            rr = chk.rule(rid, text + " (symbolic in the attempt index; applies to the canonical one-loop shape)")
+            rr.note("_retry does not have the canonical shape `for attempt in range(self._attempts): try: return func(...)`: decided by R1 for all attempts (invocation bound) and by R6 for attempts 1..3 (behaviour)")
+            rr.ok("not applicable to this loop structure; see R6")
+        r5 = chk.rule("C17.R5", "construction, interpreted end to end on exact argument collections: attempts < 1 rejected for every integer, argument containers and element classes validated, overlap rejected, all with ValueError; valid configurations are stored as given")
+        constructor_rows(prog, prog.method(rc, "__init__"), r5)
+        _attempts_writers(rc, rt, r1)
+        return
     loop = loops[0]
-    fcalls = [c for c in walk_no_nested(rt.node) if isinstance(c, ast.Call) and isinstance(c.func, ast.Name) and c.func.id == "func"]
     inloop = [c for c in fcalls if any(y is c for y in ast.walk(loop))]
-    r1.expect(len(fcalls) == 1 and len(inloop) == 1, "one call site of func, inside the loop", "RetryingClient._retry:delegate-call-sites", "func is called at %d sites (%d inside the loop): the number of invocations is no longer bounded by attempts" % (len(fcalls), len(inloop)), fn=rt, node=rt.node)
-    attempts_writers = []
-    for f in rc.methods.values():
-        for n in walk_no_nested(f.node):
-            if isinstance(n, (ast.Assign, ast.AugAssign)):
-                for t in (n.targets if isinstance(n, ast.Assign) else [n.target]):
-                    if is_self_attr(t, "_attempts"):
-                        attempts_writers.append((f, n))
-    okw = len(attempts_writers) == 1 and attempts_writers[0][0].name == "__init__" and isinstance(attempts_writers[0][1].value, ast.Name) and attempts_writers[0][1].value.id == "attempts"
-    r1.expect(okw, "self._attempts is the constructor's `attempts`", "RetryingClient:_attempts-rewritten", "self._attempts is not simply the constructor argument (%s)" % [node_src(n) for f, n in attempts_writers], fn=rt)
+    _attempts_writers(rc, rt, r1)
 
     # ------------------------------------------------------------------ R2 decision table (64 rows) + R3 sleep placement
     r2 = chk.rule("C17.R2", "64-row decision table of the handler: raise <=> last attempt or (retry_for and no match) or (do_not_retry_for and match) or name unknown")
@@ -332,6 +505,47 @@ def run(chk):
     # ------------------------------------------------------------------ R5 constructor guards
     r5 = chk.rule("C17.R5", "construction, interpreted end to end on exact argument collections: attempts < 1 rejected for every integer, argument containers and element classes validated, overlap rejected, all with ValueError; valid configurations are stored as given")
     constructor_rows(prog, prog.method(rc, "__init__"), r5)
+
+
+def _attempts_writers(rc, rt, r1):
+    attempts_writers = []
+    for f in rc.methods.values():
+        for n in walk_no_nested(f.node):
+            if isinstance(n, (ast.Assign, ast.AugAssign)):
+                for t in (n.targets if isinstance(n, ast.Assign) else [n.target]):
+                    if is_self_attr(t, "_attempts"):
+                        attempts_writers.append((f, n))
+    okw = len(attempts_writers) == 1 and attempts_writers[0][0].name == "__init__" and isinstance(attempts_writers[0][1].value, ast.Name) and attempts_writers[0][1].value.id == "attempts"
+    r1.expect(okw, "self._attempts is the constructor's `attempts`", "RetryingClient:_attempts-rewritten", "self._attempts is not simply the constructor argument (%s)" % [node_src(n) for f, n in attempts_writers], fn=rt)
+
+
+def _range_bound(loop):
+    """(a, c): the loop runs a*attempts + c times, for `for _ in range([k,] self._attempts +/- m)`; None otherwise."""
+    if not (isinstance(loop, ast.For) and isinstance(loop.iter, ast.Call) and call_name(loop.iter) == "range" and 1 <= len(loop.iter.args) <= 2 and not loop.iter.keywords):
+        return None
+
+    def aff(e):
+        if is_self_attr(e, "_attempts"):
+            return (1, 0)
+        if isinstance(e, ast.Constant) and isinstance(e.value, int) and not isinstance(e.value, bool):
+            return (0, e.value)
+        if isinstance(e, ast.BinOp) and isinstance(e.op, (ast.Add, ast.Sub)):
+            l, r = aff(e.left), aff(e.right)
+            if l is None or r is None:
+                return None
+            sg = 1 if isinstance(e.op, ast.Add) else -1
+            return (l[0] + sg * r[0], l[1] + sg * r[1])
+        return None
+
+    args = [aff(a) for a in loop.iter.args]
+    if any(a is None for a in args):
+        return None
+    lo, hi = ((0, 0), args[0]) if len(args) == 1 else (args[0], args[1])
+    if lo[0] != 0:
+        return None
+    b = (hi[0], hi[1] - lo[1])
+    # (for attempts >= 1 a bound attempts + c with c >= -1 is never negative, so the count is exactly the bound)
+    return b if b[0] in (0, 1) and (b[0] == 1 and b[1] >= -1 or b[0] == 0 and b[1] >= 0) else None
 
 
 IntSym = namedtuple("IntSym", "name")  # an unknown integer; its interval is state[("iv", name)] = (lo, hi), None = unbounded
